@@ -66,6 +66,7 @@ var originAtoms = func() []originAtom {
 	inv("", "https://\u212aexample.com", "https://example.\u212aom", "http\u017f://example.com", "https://ex\u0130mple.com", "https://*.\u212a.example.com")
 	// labels that start or end with a hyphen, and an over-long label in last position (hyphen-free host)
 	inv("", "https://-example.com", "https://example-.com", "https://*.example-.com", "http://my-service-:8080", "https://www.-a.com", "https://www.example."+strings.Repeat("a", 64), "https://"+strings.Repeat("a", 64))
+	inv("", strings.Repeat("s", 65)+"://example.com", "a"+strings.Repeat("+", 64)+"://localhost:8080")
 	inv("", "https://www.résumé.com", "https://Example.com", "HTTPS://example.com", "https://user@example.com", "https://user:pw@example.com",
 		"https://example.com/", "https://example.com/path", "https://example.com?q=1", "https://example.com#f", " https://example.com", "https://example.com ",
 		"https://example.com:", "https://example.com:0", "https://example.com:65536", "https://example.com:123456", "https://example.com:080",
